@@ -41,8 +41,10 @@ def lag_patterns(n):
   return out
 
 
-def run(prios, lags, kind):
-  """returns (delivered publication indices, reference order); prios may be symbolic"""
+def run(prios, lags, kind, stop_after=-1):
+  """returns (delivered publication indices, reference order); prios may be symbolic.
+  Priorities are handed over as p + 1000: equal priorities are then distinct int objects, as priorities computed at run time are.
+  stop_after = i: the fabric's stop() is called after publication i (a backlog that spans a stop keeps its order)"""
   hsm, ao = fabric.install()
   from collections import deque
   from miros.event import Event
@@ -51,10 +53,16 @@ def run(prios, lags, kind):
   sub = Event(signal="PA")
   af.subscribe(q, sub, kind)
   evs = [Event(signal="PA", payload=i) for i in range(len(prios))]
+  # the fabric has been in use for a while: three earlier publications (of a signal nobody subscribed to) were delivered already
+  for _ in range(3):
+    af.publish(Event(signal="PW"), priority=1000)
+  fabric.pump_direct(af, kind, 4)
   ref, out_ref = [], []
   for i, p in enumerate(prios):
-    af.publish(evs[i], priority=p)
+    af.publish(evs[i], priority=p + 1000)
     ref.append((p, i))
+    if i == stop_after:
+      af.stop()
     m = lags[i]
     if m:
       fabric.pump_direct(af, kind, m)
@@ -72,9 +80,9 @@ def _h(prios, kind):
   for p in prios:
     if not (0 <= p <= 2):
       return True
-  got, want = run(prios, lags, "fifo" if kind == 0 else "lifo")
+  got, want = run(prios, lags, "fifo" if kind == 0 else "lifo", PART.get("stop_after", -1))
   ok = (got == want)
-  return verdict_symbolic(list(prios) + [list(lags), kind], ok, "delivery-order", "lags=%s" % (list(lags),))
+  return verdict_symbolic(list(prios) + [list(lags), kind, PART.get("stop_after", -1)], ok, "delivery-order", "lags=%s" % (list(lags),))
 
 
 def h_prio4(p0: int, p1: int, p2: int, p3: int) -> bool:
@@ -95,14 +103,17 @@ def h_prio5(p0: int, p1: int, p2: int, p3: int, p4: int) -> bool:
 
 def case_prio(*args):
   args = list(args)
-  kind = args[-1]
-  lags = args[-2]
-  prios = args[:-2]
-  got, want = run(prios, lags, "fifo" if kind == 0 else "lifo")
+  stop_after = args[-1]
+  kind = args[-2]
+  lags = args[-3]
+  prios = args[:-3]
+  got, want = run(prios, lags, "fifo" if kind == 0 else "lifo", stop_after)
   if got != want:
     eq = [i for i in range(len(prios)) for j in range(i) if prios[i] == prios[j]]
     sig = "equal-priority-order" if sorted(got, key=lambda i: prios[i]) == got else "priority-order"
-    return FAIL(sig, "priorities %s lags %s %s: delivered %s expected %s" % (prios, lags, "fifo" if kind == 0 else "lifo", got, want))
+    if stop_after >= 0:
+      sig += ":backlog-spans-stop"
+    return FAIL(sig, "priorities %s lags %s %s stop() after publication %s: delivered %s expected %s" % (prios, lags, "fifo" if kind == 0 else "lifo", stop_after, got, want))
   return PASS()
 
 
@@ -117,5 +128,12 @@ def jobs(tier):
       if kind == 1 and tier == "quick" and sum(lags) not in (0, n - 1):
         continue    # the lifo body is the same code shape; quick samples its extreme lag patterns only
       out.append({"harness": "h_prio%d" % n, "part": {"lags": list(lags), "kind": kind, "tier": tier}, "expected": None,
+                  "timeout": 300 if tier == "quick" else 1200})
+  # a backlog that spans a stop(): nothing consumed until the end, stop() after publication 0, 1, ...
+  for kind in (0, 1):
+    for sa in range(n - 1):
+      if tier == "quick" and (kind == 1 or sa > 1):
+        continue
+      out.append({"harness": "h_prio%d" % n, "part": {"lags": [0] * n, "kind": kind, "tier": tier, "stop_after": sa}, "expected": None,
                   "timeout": 300 if tier == "quick" else 1200})
   return out
